@@ -61,7 +61,7 @@ func main() {
 		}
 		if e.Monitor != nil && *mon > 0 {
 			cnt := 0
-			e.Monitor(r.Fork(), *mon, func(v lib.Violation) {
+			e.Monitor(r.Fork(), *mon, func(v apps.Violation) {
 				if cnt < 20 {
 					vs.Put(v)
 				}
@@ -94,16 +94,26 @@ func doReplay(path string, cs *lib.Sink, want map[string]bool) {
 		os.Exit(2)
 	}
 	defer f.Close()
+	// the executor is chosen by -groups, else by the "engine" field of each reset request
+	execs := map[string]apps.Executor{}
+	get := func(name string) apps.Executor {
+		if ex, ok := execs[name]; ok {
+			return ex
+		}
+		for _, e := range apps.Engines {
+			if e.Name == name {
+				execs[name] = e.New()
+				return execs[name]
+			}
+		}
+		return nil
+	}
 	var ex apps.Executor
 	for _, e := range apps.Engines {
-		if len(want) == 0 || want[e.Name] {
-			ex = e.New()
+		if want[e.Name] {
+			ex = get(e.Name)
 			break
 		}
-	}
-	if ex == nil {
-		fmt.Fprintln(os.Stderr, "no such engine")
-		os.Exit(2)
 	}
 	sc := bufio.NewScanner(f)
 	sc.Buffer(make([]byte, 1<<20), 1<<26)
@@ -115,7 +125,17 @@ func doReplay(path string, cs *lib.Sink, want map[string]bool) {
 		if inner, ok := in["in"].(map[string]any); ok {
 			in = inner
 		}
-		cs.Put(lib.Case{In: in, Out: lib.Safe(func() any { return ex.Do(in) })})
+		if name, ok := in["engine"].(string); ok {
+			if x := get(name); x != nil {
+				ex = x
+			}
+		}
+		if ex == nil {
+			cs.Put(lib.Case{In: in, Out: lib.M{"bad": "no engine selected"}})
+			continue
+		}
+		cur := ex
+		cs.Put(lib.Case{In: in, Out: lib.Safe(func() any { return cur.Do(in) })})
 	}
 	cs.Close()
 	fmt.Printf("cases=%d\n", cs.N)
